@@ -629,3 +629,299 @@ Proof.
   pose proof (sim_script_ok fx c prefer sc (init c, [], []) eq_refl) as H.
   destruct (sim_script fx prefer (init c, [], []) sc) as [[st tr] ob]. exact H.
 Qed.
+
+(* ====================== round 2: no lost wake-up, unique ids from reachability ====================== *)
+
+Lemma reachable_u_reachable c st : reachable_u c st -> reachable c st.
+Proof. intros H. induction H; [constructor | now constructor]. Qed.
+
+Lemma reachable_u_uniq c st : reachable_u c st -> uniq st.
+Proof.
+  intros H. induction H as [|st now ev H IH Hwf Hf]; [constructor|].
+  apply uniq_step; assumption.
+Qed.
+
+(* "granted as soon as it fits", history level: in no reachable state is there a caller blocked in
+   cond.Wait() whose request fits (or exceeds the capacity): whenever the held amount or the capacity
+   went down, everybody was woken *)
+Definition no_fit (st : state) : Prop :=
+  forall x, In x (waiting st) -> fitsb (held st) (ww x) (cap st) = false /\ exceedsb (ww x) (cap st) = false.
+
+Lemma fitsb_mono h w c w' : fitsb h w c = false -> fitsb (mplus h w') w c = false.
+Proof. unfold fitsb, mplus. cbn. lia. Qed.
+
+Lemma no_fit_loop_body c st now x :
+  inv c st -> m_wf (ww x) -> no_fit st -> no_fit (fst (loop_body true st now x)).
+Proof.
+  intros Hinv Hw Hn. rewrite (loop_body_decide c) by assumption. unfold decide.
+  destruct (fitsb (held st) (ww x) (cap st)) eqn:Ef; cbn [fst].
+  - intros y Hy. cbn [held cap waiting] in *. destruct (Hn y Hy) as [H1 H2]. split; [now apply fitsb_mono | assumption].
+  - destruct (exceedsb (ww x) (cap st) || (wdl x <=? now)%Z) eqn:Ee; cbn [fst]; [exact Hn|].
+    intros y Hy. cbn [held cap waiting] in *. apply in_app_iff in Hy. destruct Hy as [Hy | [<- | []]]; [now apply Hn|].
+    apply orb_false_iff in Ee. tauto.
+Qed.
+
+Lemma no_fit_step c st now ev : inv c st -> ev_wf ev -> no_fit st -> no_fit (fst (step true st now ev)).
+Proof.
+  intros Hinv Hev Hn. destruct ev as [id w tcall timeout | w | w | | id | id]; cbn [step].
+  - apply (no_fit_loop_body c); assumption.
+  - pose proof (cap_wf _ _ Hinv) as Hcw. destruct Hinv as (Hc & Hle & _). cbn in Hev.
+    rewrite (try_acquire_exact _ _ _ (mle_wf _ _ Hc Hle) Hev Hcw).
+    destruct (fitsb (held st) w (cap st)); cbn [fst]; [|exact Hn].
+    intros y Hy. cbn [held cap waiting] in *. destruct (Hn y Hy). split; [now apply fitsb_mono | assumption].
+  - unfold release. destruct (mlt_any (held st) w); cbn [fst]; intros y [].
+  - cbn [fst]. intros y [].
+  - cbn [fst]. intros y [].
+  - destruct (take_waiter id (woken st)) as [[x rest]|] eqn:T; [|exact Hn].
+    destruct (take_waiter_some _ _ _ _ T) as (H1 & H2 & H3 & H4 & H5).
+    apply (no_fit_loop_body c).
+    + eapply inv_sub; [exact Hinv | reflexivity | reflexivity |].
+      intros z Hz. apply in_pending_app in Hz. cbn [waiting woken] in Hz. apply in_pending_app. destruct Hz; auto.
+    + destruct Hinv as (_ & _ & _ & Hwf & _). apply Hwf, in_pending_app; auto.
+    + exact Hn.
+Qed.
+
+Lemma sem_no_fitting_waiter c st x :
+  m_wf c -> reachable c st -> In x (waiting st) ->
+  fitsb (held st) (ww x) (cap st) = false /\ exceedsb (ww x) (cap st) = false.
+Proof.
+  intros Hc H. revert x. change (no_fit st). induction H as [|st now ev H IH Hwf]; [intros x []|].
+  apply (no_fit_step c); auto using reachable_inv.
+Qed.
+
+(* the wake-up theorem without the NoDup hypothesis *)
+Lemma sem_wake_u c st now x :
+  m_wf c -> reachable_u c st -> In x (woken st) ->
+  exists rest,
+    (forall y, In y rest <-> In y (woken st) /\ y <> x) /\
+    step true st now (EWake (wid x)) =
+    match decide (held st) (cap st) (ww x) (wdl x) now with
+    | DGrant => (mkS (mplus (held st) (ww x)) (cap st) (waiting st) rest, [ORet (wid x) true])
+    | DRefuse => (mkS (held st) (cap st) (waiting st) rest, [ORet (wid x) false])
+    | DBlock => (mkS (held st) (cap st) (waiting st ++ [x]) rest, [OBlock (wid x)])
+    end.
+Proof.
+  intros Hc H Hin. apply (sem_wake c); auto using reachable_u_reachable.
+  pose proof (reachable_u_uniq _ _ H) as Hu. unfold uniq, pending in Hu. rewrite map_app in Hu.
+  now apply nodup_app_r in Hu.
+Qed.
+
+(* "as soon as enough is released", the no-competitor case: a pending caller whose request fits after a
+   Release is granted the first time it runs, if nothing else happens in between *)
+Lemma sem_release_then_wake c st now now' w x :
+  m_wf c -> reachable_u c st -> m_wf w -> In x (pending st) ->
+  fits (held (fst (step true st now (ERelease w)))) (ww x) (cap st) ->
+  exists st', step true (fst (step true st now (ERelease w))) now' (EWake (wid x)) = (st', [ORet (wid x) true]).
+Proof.
+  intros Hc H Hw Hin Hfit.
+  assert (H1 : reachable_u c (fst (step true st now (ERelease w)))) by (apply reach_u_step; [assumption | exact Hw | exact I]).
+  pose proof (sem_release st now w) as Hr.
+  destruct (step true st now (ERelease w)) as [st1 o] eqn:E. cbn [fst] in *.
+  destruct Hr as (_ & Hwk & Hcap & _).
+  assert (Hin1 : In x (woken st1)).
+  { rewrite Hwk. apply in_pending_app in Hin. apply in_app_iff. tauto. }
+  destruct (sem_wake_u c st1 now' x Hc H1 Hin1) as (rest & _ & Es). rewrite Es.
+  unfold decide. rewrite Hcap. apply fitsb_spec in Hfit. rewrite Hfit. eauto.
+Qed.
+
+(* ====================== round 2: the replay scheduler reaches quiescence ====================== *)
+(* After every script instant handled by [sim_script] (repaired code): nobody is runnable, and every
+   blocked caller still has its deadline ahead - together with C30_no_fitting_waiter (its request does
+   not fit and does not exceed the capacity) this is the "pending" clause of the acceptor, for ALL
+   scripts: whoever has not returned at the end of an instant is rightly still waiting. *)
+
+Definition quiet (st : state) (now : Z) : Prop :=
+  woken st = [] /\ forall x, In x (waiting st) -> (now < wdl x)%Z.
+
+Lemma pick_in prefer l id : pick prefer l = Some id -> exists x, In x l /\ wid x = id.
+Proof.
+  unfold pick. destruct (find _ l) as [x|] eqn:F.
+  - intros H; inversion H; subst. apply find_some in F. exists x. tauto.
+  - destruct l as [|x r]; [discriminate|]. intros H; inversion H. exists x. cbn; auto.
+Qed.
+
+(* one wake-up at time [now]: the woken list loses exactly one element, which returns or is blocked
+   again with its deadline ahead *)
+Lemma wake_shape st now id x r :
+  take_waiter id (woken st) = Some (x, r) ->
+  let st' := fst (step true st now (EWake id)) in
+  woken st' = r /\ (waiting st' = waiting st \/ (waiting st' = waiting st ++ [x] /\ (now < wdl x)%Z)).
+Proof.
+  intros T. cbn [step]. rewrite T. unfold loop_body. cbn [held cap waiting woken].
+  destruct (try_acquire _ _ _ _); cbn [fst woken waiting]; [auto|].
+  destruct (mgt_any (ww x) (cap st) || expired true now (wdl x)) eqn:E; cbn [fst woken waiting]; [auto|].
+  split; [reflexivity|]. right. split; [reflexivity|].
+  apply orb_false_iff in E. destruct E as [_ E]. unfold expired in E. lia.
+Qed.
+
+(* draining: nobody runnable afterwards; the blocked callers are the old ones plus re-blocked ones
+   (deadline ahead), and together with those that returned they are the old blocked + runnable ones *)
+Lemma drain_quiet prefer now fuel : forall s,
+  (length (woken (fst (fst s))) <= fuel)%nat ->
+  let s' := drain true prefer fuel s now in
+  woken (fst (fst s')) = [] /\
+  exists kept gone,
+    waiting (fst (fst s')) = waiting (fst (fst s)) ++ kept /\
+    (forall y, In y kept -> (now < wdl y)%Z) /\
+    Permutation (kept ++ gone) (woken (fst (fst s))).
+Proof.
+  induction fuel as [|f IH]; intros s Hlen; cbn [drain].
+  - assert (E : woken (fst (fst s)) = []) by (destruct (woken (fst (fst s))); [reflexivity | cbn in Hlen; lia]).
+    split; [exact E|]. exists [], []. rewrite app_nil_r, E. repeat split; [intros y [] | constructor].
+  - destruct (pick prefer (woken (fst (fst s)))) as [id|] eqn:P.
+    + destruct (pick_in _ _ _ P) as (x & Hx & Hid).
+      destruct s as [[st tr] ob]. cbn [fst] in *.
+      destruct (take_waiter id (woken st)) as [[y r]|] eqn:T.
+      2:{ exfalso. exact (take_waiter_none _ _ T x Hx Hid). }
+      pose proof (wake_shape st now id y r T) as Hw. cbn zeta in Hw. destruct Hw as [Hw1 Hw2].
+      pose proof (take_waiter_perm _ _ _ _ T) as Hp.
+      pose proof (Permutation_length Hp) as Hl. cbn [length] in Hl.
+      unfold sim_step. destruct (step true st now (EWake id)) as [st1 o] eqn:Es. cbn [fst] in Hw1, Hw2.
+      specialize (IH (st1, (now, EWake id) :: tr, rev (flat_map (obs_of now) o) ++ ob)). cbn [fst] in IH.
+      assert (Hlen1 : (length (woken st1) <= f)%nat) by (rewrite Hw1; lia).
+      destruct (IH Hlen1) as (H1 & kept & gone & H2 & H3 & H4). split; [exact H1|].
+      rewrite Hw1 in H4.
+      destruct Hw2 as [Ew | [Ew Hdl]].
+      * exists kept, (y :: gone). rewrite H2, Ew. split; [reflexivity|]. split; [exact H3|].
+        eapply perm_trans; [apply Permutation_sym, Permutation_middle|].
+        eapply perm_trans; [apply perm_skip, H4 | apply Permutation_sym, Hp].
+      * exists (y :: kept), gone. rewrite H2, Ew, <- app_assoc. split; [reflexivity|].
+        split; [intros z [<-|Hz]; auto|].
+        cbn [app]. eapply perm_trans; [apply perm_skip, H4 | apply Permutation_sym, Hp].
+    + assert (E : woken (fst (fst s)) = []).
+      { unfold pick in P. destruct (find _ _); [discriminate|]. destruct (woken (fst (fst s))); [reflexivity | discriminate]. }
+      split; [exact E|]. exists [], []. rewrite app_nil_r, E. repeat split; [intros y [] | constructor].
+Qed.
+
+Lemma min_waiter_spec l x : min_waiter l = Some x -> In x l /\ forall y, In y l -> (wdl x <= wdl y)%Z.
+Proof.
+  revert x. induction l as [|a l IH]; intros x H; cbn in H; [discriminate|].
+  destruct (min_waiter l) as [m|] eqn:M.
+  - destruct (IH m eq_refl) as [H1 H2]. destruct (wdl m <? wdl a)%Z eqn:E; inversion H; subst.
+    + split; [right; assumption|]. intros y [<-|Hy]; [lia | auto].
+    + split; [left; reflexivity|]. intros y [<-|Hy]; [lia | specialize (H2 y Hy); lia].
+  - inversion H; subst. destruct l as [|b l].
+    + split; [left; reflexivity|]. intros y [<-|[]]. lia.
+    + exfalso. cbn in M. destruct (min_waiter l); [destruct (_ <? _)%Z|]; discriminate.
+Qed.
+
+Lemma min_waiter_none l : min_waiter l = None -> l = [].
+Proof. destruct l as [|a l]; [reflexivity|]. cbn. destruct (min_waiter l); [destruct (_ <? _)%Z|]; discriminate. Qed.
+
+(* timers due up to T: afterwards quiet at T, given enough fuel *)
+Lemma fire_timers_quiet prefer T fuel : forall s t0,
+  quiet (fst (fst s)) t0 -> (length (waiting (fst (fst s))) < fuel)%nat ->
+  quiet (fst (fst (fire_timers true prefer fuel s (Some T)))) T.
+Proof.
+  induction fuel as [|f IH]; intros s t0 [Hw Hd] Hlen; [lia|]. cbn [fire_timers].
+  destruct (min_waiter (waiting (fst (fst s)))) as [x|] eqn:M.
+  2:{ split; [exact Hw|]. rewrite (min_waiter_none _ M). intros y []. }
+  destruct (min_waiter_spec _ _ M) as [Hx Hmin].
+  destruct (wdl x <=? T)%Z eqn:Ed.
+  2:{ split; [exact Hw|]. intros y Hy. specialize (Hmin y Hy). lia. }
+  destruct s as [[st tr] ob]. cbn [fst] in *.
+  unfold drain_all, sim_step. cbn [step fst snd]. cbn [flat_map rev app].
+  set (s1 := (broadcast st, (wdl x, ETimer (wid x)) :: tr, ob)).
+  pose proof (drain_quiet prefer (wdl x) (length (woken (fst (fst s1)))) s1 (le_n _)) as Hq.
+  cbn zeta in Hq. destruct Hq as (Hq1 & kept & gone & Hq2 & Hq3 & Hq4).
+  set (s2 := drain true prefer (length (woken (fst (fst s1)))) s1 (wdl x)) in *.
+  unfold s1 in Hq2, Hq4. cbn [fst broadcast waiting woken] in Hq2, Hq4. rewrite Hw in Hq4. cbn [app] in Hq2, Hq4.
+  apply (IH s2 (wdl x)).
+  - split; [exact Hq1|]. rewrite Hq2. exact Hq3.
+  - (* x is not kept (its deadline is not ahead of itself), so at least one caller is gone *)
+    rewrite Hq2. pose proof (Permutation_length Hq4) as Hl. rewrite app_length in Hl.
+    assert (Hg : gone <> []).
+    { intros ->. rewrite app_nil_r in Hq4. apply Permutation_sym in Hq4.
+      pose proof (Permutation_in _ Hq4 Hx) as Hk. specialize (Hq3 x Hk). lia. }
+    destruct gone; [contradiction | cbn in Hl; lia].
+Qed.
+
+Lemma drain_all_quiet prefer now s :
+  (forall y, In y (waiting (fst (fst s))) -> (now < wdl y)%Z) ->
+  quiet (fst (fst (drain_all true prefer s now))) now.
+Proof.
+  intros Hd. unfold drain_all.
+  destruct (drain_quiet prefer now (length (woken (fst (fst s)))) s (le_n _)) as (H1 & kept & gone & H2 & H3 & _).
+  split; [exact H1|]. rewrite H2. intros y Hy. apply in_app_iff in Hy. destruct Hy; auto.
+Qed.
+
+Lemma loop_body_waiting st now x y :
+  In y (waiting (fst (loop_body true st now x))) -> In y (waiting st) \/ (now < wdl y)%Z.
+Proof.
+  unfold loop_body. destruct (try_acquire _ _ _ _); cbn [fst waiting]; [auto|].
+  destruct (mgt_any (ww x) (cap st) || expired true now (wdl x)) eqn:E; cbn [fst waiting]; [auto|].
+  intros Hy. apply in_app_iff in Hy. destruct Hy as [Hy | [<- | []]]; [auto | right].
+  apply orb_false_iff in E. destruct E as [_ E]. unfold expired in E. lia.
+Qed.
+
+(* one script instant of the replay scheduler: due timers, the scripted call, everybody woken runs *)
+Definition sim_instant (prefer : list N) (s : sim) (now : Z) (op : sop) : sim :=
+  sim_op true prefer (timers true prefer s (Some now)) now op.
+
+Lemma sim_instant_quiet prefer s t0 now op :
+  quiet (fst (fst s)) t0 -> quiet (fst (fst (sim_instant prefer s now op))) now.
+Proof.
+  intros Hq. unfold sim_instant, timers.
+  pose proof (fire_timers_quiet prefer now (S (length (waiting (fst (fst s))))) s t0 Hq (Nat.lt_succ_diag_r _)) as H.
+  destruct (fire_timers true prefer (S (length (waiting (fst (fst s))))) s (Some now)) as [[st tr] ob].
+  cbn [fst] in H. destruct H as [Hw Hd].
+  destruct op as [id w timeout | w | w | | ]; cbn [sim_op].
+  - apply drain_all_quiet. unfold sim_step. cbn [step].
+    pose proof (loop_body_waiting st now (mkW id w (now + timeout)%Z)) as Hl.
+    destruct (loop_body true st now (mkW id w (now + timeout)%Z)) as [st1 o]. cbn [fst] in *.
+    intros y Hy. destruct (Hl y Hy); auto.
+  - apply drain_all_quiet. unfold sim_step. cbn [step].
+    destruct (try_acquire true (held st) (cap st) w); cbn [fst waiting]; exact Hd.
+  - unfold sim_step. cbn [step]. unfold release.
+    destruct (mlt_any (held st) w); apply drain_all_quiet; cbn; intros y [].
+  - apply drain_all_quiet. unfold sim_step. cbn [step fst broadcast waiting]. intros y [].
+  - cbn [fst]. split; assumption.
+Qed.
+
+Lemma sim_script_unfold fx prefer s now op sc :
+  sim_script fx prefer s ((now, op) :: sc) = sim_script fx prefer (sim_op fx prefer (timers fx prefer s (Some now)) now op) sc.
+Proof. reflexivity. Qed.
+
+Lemma quiet_init c t : quiet (init c) t.
+Proof. split; [reflexivity | intros y []]. Qed.
+
+(* with all timers delivered, everybody returns: the repaired model never reports BNever *)
+Lemma fire_timers_all prefer fuel : forall s t0,
+  quiet (fst (fst s)) t0 -> (length (waiting (fst (fst s))) < fuel)%nat ->
+  let st' := fst (fst (fire_timers true prefer fuel s None)) in waiting st' = [] /\ woken st' = [].
+Proof.
+  induction fuel as [|f IH]; intros s t0 [Hw Hd] Hlen; [lia|]. cbn [fire_timers].
+  destruct (min_waiter (waiting (fst (fst s)))) as [x|] eqn:M.
+  2:{ split; [exact (min_waiter_none _ M) | exact Hw]. }
+  destruct (min_waiter_spec _ _ M) as [Hx Hmin].
+  destruct s as [[st tr] ob]. cbn [fst] in *.
+  unfold drain_all, sim_step. cbn [step fst snd]. cbn [flat_map rev app].
+  set (s1 := (broadcast st, (wdl x, ETimer (wid x)) :: tr, ob)).
+  pose proof (drain_quiet prefer (wdl x) (length (woken (fst (fst s1)))) s1 (le_n _)) as Hq.
+  cbn zeta in Hq. destruct Hq as (Hq1 & kept & gone & Hq2 & Hq3 & Hq4).
+  set (s2 := drain true prefer (length (woken (fst (fst s1)))) s1 (wdl x)) in *.
+  unfold s1 in Hq2, Hq4. cbn [fst broadcast waiting woken] in Hq2, Hq4. rewrite Hw in Hq4. cbn [app] in Hq2, Hq4.
+  apply (IH s2 (wdl x)).
+  - split; [exact Hq1|]. rewrite Hq2. exact Hq3.
+  - rewrite Hq2. pose proof (Permutation_length Hq4) as Hl. rewrite app_length in Hl.
+    assert (Hg : gone <> []).
+    { intros ->. rewrite app_nil_r in Hq4. apply Permutation_sym in Hq4.
+      pose proof (Permutation_in _ Hq4 Hx) as Hk. specialize (Hq3 x Hk). lia. }
+    destruct gone; [contradiction | cbn in Hl; lia].
+Qed.
+
+Lemma sim_script_all_return prefer sc : forall s t0,
+  quiet (fst (fst s)) t0 ->
+  let st' := fst (fst (sim_script true prefer s sc)) in waiting st' = [] /\ woken st' = [].
+Proof.
+  induction sc as [|[now op] sc IH]; intros s t0 Hq.
+  - cbn [sim_script]. unfold timers. apply (fire_timers_all prefer _ s t0 Hq). apply Nat.lt_succ_diag_r.
+  - rewrite sim_script_unfold. apply (IH _ now). exact (sim_instant_quiet prefer s t0 now op Hq).
+Qed.
+
+Lemma simulate_all_return c prefer sc :
+  let '(st, tr, ob) := sim_script true prefer (init c, [], []) sc in waiting st = [] /\ woken st = [].
+Proof.
+  pose proof (sim_script_all_return prefer sc (init c, [], []) 0%Z (quiet_init c 0%Z)) as H. cbn zeta in H.
+  destruct (sim_script true prefer (init c, [], []) sc) as [[st tr] ob]. exact H.
+Qed.
